@@ -824,7 +824,7 @@ func (x *Exec) evalCall(e *Expr, env *Env) Val {
 		if len(e.Args) != 1 {
 			bail("called(f) expects a function name")
 		}
-		if env.st.ghost["called:"+e.Args[0].String()] == "true" {
+		if env.st.ghost["called:"+calleeName(e.Args[0])] == "true" {
 			return specBool("true")
 		}
 		return specBool("false")
@@ -833,7 +833,7 @@ func (x *Exec) evalCall(e *Expr, env *Env) Val {
 		if len(e.Args) != 2 {
 			bail("callret(f, i) expects a function name and a result index")
 		}
-		nm, idx := e.Args[0].String(), e.Args[1].String()
+		nm, idx := calleeName(e.Args[0]), e.Args[1].String()
 		t, ok := env.st.ghost["callret:"+nm+":"+idx]
 		if !ok {
 			bail("unknown identifier: callret(%s, %s): no such call on this path", nm, idx)
@@ -1050,4 +1050,12 @@ func (x *Exec) addrOfLocal(fr *Frame, name string) (string, bool) {
 		}
 	}
 	return "", false
+}
+
+// calleeName: called(f) / callret(f, i) name a function by identifier or, for methods, by string ("(*Whisper).Sync").
+func calleeName(e *Expr) string {
+	if e.Op == "str" {
+		return strings.Trim(e.Name, "\"`")
+	}
+	return e.String()
 }
